@@ -7,7 +7,7 @@ Definition step_cfg (fuel : nat) (mr : mstate * regs) (o : hop) :=
   @step nhash khash memo_ref memo_dm memo_nref memo_refN fuel mr o.
 Definition init_cfg (bm cm sm cap : N) : mstate * regs := (init bm cm sm cap, nil).
 Extraction "model.ml" step_cfg init_cfg
-  tbl_new tbl_put tbl_sweep
+  tbl_new tbl_put tbl_sweep ntbl_new ntbl_put
   ncache_new ncache_get ncache_insert ncache_clear kcache_new kcache_get kcache_insert kcache_clear
   raw_new raw_step raw_reserve raw_iter
   eda_arena eda_to_boxed eda_eval
